@@ -7,7 +7,7 @@ ENC_ACTIONS = "EvEncode ReadAscii ReadC40 ReadText ReadX12 ReadEdifact ReadB256 
 
 
 def enc_job(focus, profiles=("release",)):
-    return {"family": "enc", "spec": "Trace_Enc", "focus": focus, "profiles": profiles}
+    return {"family": "enc", "spec": "Trace_Enc", "focus": focus, "profiles": profiles, "coverage": True}
 
 
 PROPS = {
@@ -57,7 +57,7 @@ PROPS = {
 }
 
 def rs_job(focus, profiles=("release",)):
-    return {"family": "rs", "spec": "Trace_RS", "focus": focus, "profiles": profiles}
+    return {"family": "rs", "spec": "Trace_RS", "focus": focus, "profiles": profiles, "coverage": True}
 
 
 PROPS.update({
@@ -90,7 +90,33 @@ PROPS.update({
     },
 })
 
-MC = {}
+GEOM_JOB = {"family": "geom", "spec": "Trace_Geom"}
+PLACE_JOB = {"family": "place", "spec": "Trace_Place", "coverage": True}
+
+PROPS["C03"]["jobs"].append(GEOM_JOB)
+PROPS["C03"]["rule"] += "; pixel form (geom family): encoded messages of all 48 sizes, data modules flipped (1, 2, ~t, ... distinct modules), TLC maps every flipped module to its codeword through the Annex F placement and requires decode = message when every block stays within capacity"
+PROPS.update({
+    "C07": {
+        "level_text": "(a) MC_Placement: the Annex F machine of Placement.tla is model-checked for all 48 shapes (no overwrite, complete, exactly the four corner modules left, terminates). (b) Trace_Place: the implementation's traversal (codeword number + eight cells per visit, recovered through the public API from the addresses handed to the visitor) must be step for step the placement sequence of the machine - exhaustive over the 48 sizes. (c) Trace_Geom: values - rendered pixels of random/encoded codeword vectors equal the spec's placement applied to the codewords, corner pattern, read-back.",
+        "level_note": "Trusts: Placement.tla as transcription of Annex F / ISO 21471 (cross-checked against the repository's three golden layouts by the trace itself).",
+        "mc": ["MC_Placement"],
+        "jobs": [PLACE_JOB, GEOM_JOB],
+        "rule": "place: one case per symbol size (48), one event per codeword visit (13,6xx events); geom: 2 codeword vectors per size (random and encoder output); non-trivial = every case; distinct = (size, vector)",
+        "assumptions": ["value independence is probed with 2 (quick) / 4 (thorough) vectors per size on top of the value-free traversal trace"],
+        "exhaustive_quick": True, "exhaustive_thorough": True,
+    },
+    "C08": {
+        "level_text": "Trace_Geom: forward - every pixel of the rendering of 2-4 codeword vectors per size is compared with Render.tla (finder, clock, alignment bars, data, corner). Converse - deviation experiments: every single finder/clock/alignment/corner module of every size and (small sizes, thorough: all sizes) every data module flipped, plus random multi-module deviations; TLC decides by the kind of the flipped modules whether the parser must reject (Alignment/Padding) or accept with exactly the toggled codeword bits. Shape errors (ZeroWidth/DataSize/SymbolSize) in the shapes family.",
+        "level_note": "Trusts: Render.tla geometry (validated forward against the implementation on all 48 sizes and by MC_Render on small sizes).",
+        "jobs": [GEOM_JOB, {"family": "shapes", "spec": "Trace_Shapes"}],
+        "rule": "one experiment = (size, base codewords, set of flipped modules) -> try_from_bits / decode; non-trivial = experiment with at least one flipped module; distinct = (case, event index)",
+        "assumptions": [],
+    },
+})
+
+MC = {
+    "MC_Placement": {"spec": "MC_Placement", "must_take": ["Statement"], "timeout": 900},
+}
 HOOK_COMMITS = []
 SETUP_MC = []
 NOT_YET = {}
@@ -159,8 +185,23 @@ def account(pid, fam, case, verdict, ev):
             if info and not info[0]:
                 ev["nontrivial"].add(case["id"])
             if info and len(info) > 1:
-                for z in info[1]:
+                zs = info[1].values() if isinstance(info[1], dict) else info[1]
+                for z in zs:
                     ev.setdefault("x_leading_zero_syndromes_presented", collections.Counter())[str(z)] += 1
+    elif fam == "geom":
+        for i, e in enumerate(case["events"]):
+            ev["notes"]["event_" + e["ev"]] += 1
+            if e["ev"] == "Flip":
+                if e["flips"]:
+                    ev["nontrivial"].add((case["id"], i))
+                ev["notes"]["parse_" + e["parse"].get("kind", "?") + ("_" + e["parse"].get("err", "") if e["parse"].get("kind") == "Err" else "")] += 1
+                ev["notes"]["decode_" + e["decode"].get("kind", "?")] += 1
+            else:
+                ev["nontrivial"].add((case["id"], i))
+        ev["x_events_validated"] = ev.get("x_events_validated", 0) + len(case["events"])
+    elif fam == "place":
+        ev["nontrivial"].add(case["id"])
+        ev["x_events_validated"] = ev.get("x_events_validated", 0) + len(case["events"])
     else:
         ev["nontrivial"].add(case["id"])
 
